@@ -62,7 +62,12 @@ TDone == IsEv("done") /\ Done(Rec[l].e)
 \* under an injected fault a call may fail instead of returning a value; the history does not change
 NoValue(e) == e \in FaultEntryPoints /\ e \notin closed /\ UNCHANGED <<seen, first, varies, closed>>
 TNoValue == IsEv("novalue") /\ NoValue(Rec[l].e)
-TNext == TDraw \/ TDone \/ TNoValue
+\* the process forks: a generator that keeps state in memory now has that state in two processes.  The histories do not
+\* fork with it - what one process has returned the other must not return (the recording lists the parent's values after
+\* the fork, then the child's) - so the event changes nothing and Draw stays as strict as before
+Fork(e) == e \in EntryPoints /\ e \notin closed /\ UNCHANGED <<seen, first, varies, closed>>
+TFork == IsEv("fork") /\ Fork(Rec[l].e)
+TNext == TDraw \/ TDone \/ TNoValue \/ TFork
 TSpec == Init /\ [][TNext]_vars
 
 Accepted == LET d == TLCGet("stats").diameter IN
